@@ -15,8 +15,8 @@
   3. `noise_model_killed_equiv`: every R split into NR + a zero-volt source is the same circuit.
   4. `subs_commutes`: solving then substituting = substituting then solving, for any value map that
      respects the arithmetic (guarded division).
-  5. `replace_switches_noevent`: away from every switching instant the replacement before and after
-     `t` is the same netlist, and it is constant between two consecutive events.
+  5. `replace_switches_noevent`: away from every switching instant the replacement just before and at
+     `t` is the same netlist; `replace_switches_const`: it is constant between two consecutive events.
   Only property theorems live here; helper lemmas are in Lcapy/Proofs/RewriteCW.lean.
 -/
 import Lcapy.Proofs.RewriteCWSteps
@@ -273,16 +273,9 @@ example :
 
 /-! ## 5. replace_switches
 
-  `SW._replace_switch(t, before)`: `active = t < t_a` when `before` else `t ≥ t_a`.  The rule for
-  `before` is the NEGATION of the rule for "at or after" at every time (`switch_before_is_negation`),
-  so `replace_switches_before(t)` is right only at t = t_a itself (`switch_before_at_event`) and wrong
-  at every other time: the documented meaning ("for time just before `t`") requires `t > t_a`.
-  FULL STATEMENT (fails on the code, finding C05-switch-before):
-      theorem replace_switches_noevent (hne : ∀ switch e ∈ net, t_a e ≠ t) :
-          replaceSwitches t true net = replaceSwitches t false net
-  What holds of the code: `replace_switches_const` (no event between t1 and t2 ⇒ the same netlist),
-  `switch_before_at_event`; the repaired rule satisfies the full statement
-  (`replace_switches_noevent_repaired`). -/
+  `SW._replace_switch(t, before)`: `active = t > t_a` when `before` else `t ≥ t_a`.
+  (Before the repair of finding C05-switch-before the `before` test was `t < t_a`, the negation of the
+  other rule at every time; `replace_switches_noevent` was false for it.) -/
 
 section switches
 variable {T : Type} [LinearOrder T] [OfNat T 0]
@@ -303,39 +296,34 @@ theorem replace_switches_const (t1 t2 : T) (net : Net T)
       simp only [switchClosed, Bool.false_eq_true, if_false, decide_eq_decide.mpr hta]
     simp only [this]
 
-/-- the code's rule for `before` is the negation of its rule for "at or after", at every time -/
-theorem switch_before_is_negation (k : SwKind) (ta t : T) :
-    switchClosed k ta t true = !switchClosed k ta t false := by
-  have h1 : decide (t < ta) = !decide (ta ≤ t) := by
-    by_cases h : t < ta
-    · simp [h]
-    · simp [h, not_lt.mp h]
-  cases k <;> simp [switchClosed, h1]
+/-- **replace_switches_noevent**: at an instant that is not the switching time of any switch the
+    circuit just before `t` is the circuit at `t`: `replace_switches_before(t) = replace_switches(t)` -/
+theorem replace_switches_noevent (t : T) (net : Net T)
+    (hne : ∀ e ∈ net, (swKindOf e).isSome → e.val.getD 0 ≠ t) :
+    replaceSwitches t true net = replaceSwitches t false net := by
+  simp only [replaceSwitches]
+  apply List.map_congr_left
+  intro e he
+  cases hk : swKindOf e with
+  | none => rfl
+  | some k =>
+    have hta := hne e he (by simp [hk])
+    have hd : decide (e.val.getD 0 < t) = decide (e.val.getD 0 ≤ t) :=
+      decide_eq_decide.mpr ⟨le_of_lt, fun h => lt_of_le_of_ne h hta⟩
+    have : switchClosed k (e.val.getD 0) t true = switchClosed k (e.val.getD 0) t false := by
+      cases k <;> simp [switchClosed, hd]
+    simp only [this]
 
-/-- at the event itself the `before` rule is right: it gives the state the switch has at every
-    earlier time -/
+/-- **switch_before_at_event**: at a switching instant the `before` rule gives the state the switch
+    has at every earlier time (it has not operated yet) -/
 theorem switch_before_at_event (k : SwKind) (ta t' : T) (h : t' < ta) :
     switchClosed k ta ta true = switchClosed k ta t' false := by
   cases k <;> simp [switchClosed, not_le.mpr h]
 
-/-- the repaired `before` rule (`active = t > t_a`: the switch has already acted just before `t`) -/
-def switchClosedRepaired (k : SwKind) (ta t : T) (before : Bool) : Bool :=
-  let active : Bool := if before then decide (ta < t) else decide (ta ≤ t)
-  match k with
-  | .no => active
-  | .nc => !active
-
-/-- **replace_switches_noevent_repaired**: with the repaired rule, at a time that is not a switching
-    instant the state just before `t` is the state at `t` (per switch; the netlists are maps of it) -/
-theorem replace_switches_noevent_repaired (k : SwKind) (ta t : T) (hne : ta ≠ t) :
-    switchClosedRepaired k ta t true = switchClosedRepaired k ta t false := by
-  have : decide (ta < t) = decide (ta ≤ t) := decide_eq_decide.mpr ⟨le_of_lt, fun h => lt_of_le_of_ne h hne⟩
-  cases k <;> simp [switchClosedRepaired, this]
-
-/-- … and at a switching instant it gives the state of every earlier time (as the code does) -/
-theorem switch_repaired_at_event (k : SwKind) (ta t' : T) (h : t' < ta) :
-    switchClosedRepaired k ta ta true = switchClosed k ta t' false := by
-  cases k <;> simp [switchClosedRepaired, switchClosed, not_le.mpr h]
+/-- … and differs from the state at the instant itself (the switch operates at `t_a`) -/
+theorem switch_operates_at_event (k : SwKind) (ta : T) :
+    switchClosed k ta ta true = !switchClosed k ta ta false := by
+  cases k <;> simp [switchClosed]
 
 end switches
 
